@@ -223,6 +223,10 @@ func encodeSearchAfter(ss search.SearchSort, after string) string {
 	case *search.SortGeoDistance:
 		return encodeFloat()
 	case *search.SortField:
+		if after == search.HighTerm || after == search.LowTerm {
+			// sort value of a hit that lacks the field, not a number or date
+			return after
+		}
 		switch ss.Type {
 		case search.SortFieldAsNumber:
 			return encodeFloat()
